@@ -277,3 +277,37 @@ func VerifC07Header(hlen, snl, fl, forms int) {
 	verifAssert(verifSame(h.file, fn), "file-readable")
 	verifReach("end")
 }
+
+// VerifC07SharedValue: two options are given ONE value slice (callers reuse buffers: a server's
+// address, an identifier), then the first is updated again with another value of the same length
+// (sameLen != 0) or of another length; the second option keeps its value, the caller's slice is
+// untouched, and the encoding equals that of a packet built from scratch with these contents.
+func VerifC07SharedValue(n, sameLen int) {
+	c1, c2 := verifU8("code"), verifU8("code")
+	verifAssume(c1 >= 1 && c1 <= 254)
+	verifAssume(c2 >= 1 && c2 <= 254)
+	verifAssume(c1 != c2)
+	shared := verifBytes("shared", n)
+	keep := append([]byte(nil), shared...)
+	m := n
+	if sameLen == 0 {
+		m = n + 1
+	}
+	newer := verifBytes("newer", m)
+	p := &DHCPv4{OpCode: OpcodeBootRequest, HWType: iana.HWTypeEthernet, Options: Options{}}
+	p.UpdateOption(OptGeneric(GenericOptionCode(c1), shared))
+	p.UpdateOption(OptGeneric(GenericOptionCode(c2), shared))
+	p.UpdateOption(OptGeneric(GenericOptionCode(c1), newer))
+	verifAssert(verifSame(shared, keep), "callers-value-unchanged-by-later-updates")
+	b := p.ToBytes()
+	got, ok := refValidateEncoding(b)
+	if !ok {
+		return
+	}
+	verifAssert(len(got) == 2, "decoder-recovers-exactly-the-options")
+	verifAssert(verifSame(got[c1], newer), "decoder-recovers-value")
+	verifAssert(verifSame(got[c2], keep), "decoder-recovers-value")
+	fresh := &DHCPv4{OpCode: OpcodeBootRequest, HWType: iana.HWTypeEthernet, Options: Options{c1: append([]byte(nil), newer...), c2: append([]byte(nil), keep...)}}
+	verifAssert(verifSame(fresh.ToBytes(), b), "equal-contents-encode-to-identical-bytes")
+	verifReach("end")
+}
